@@ -21,7 +21,8 @@ def _raises(idx, fn, node):
 
 def rule_validators(ctx, r):
     idx = ctx.index
-    ft = idx.func(f"{CORE}:Graph.from_targets")
+    from ..inline import inlined
+    ft = inlined(ctx, idx.func(f"{CORE}:Graph.from_targets"))
     con = f"{ft.module.relpath}::{ft.qual}"
     # (a) duplicate producers: raise under `path in provides`, before the store
     dup_ok = False
